@@ -119,6 +119,10 @@ def _build(d):
                 cells[a] = {'kind': 'empty'}
             elif k in ('s', 'str', 'inlineStr'):
                 cells[a] = {'kind': k, 'v': d.choice(TEXTS)}
+                if k != 'str' and d.pick(6) == 0:
+                    # a stored text cell whose text is EMPTY: a text, not a
+                    # blank
+                    cells[a]['v'] = ''
             elif k == 'b':
                 cells[a] = {'kind': 'b', 'v': bool(d.pick(2))}
             elif k == 'e':
